@@ -12,7 +12,7 @@ use serde_json::{Value, json};
 use sozu_command_lib::{
     logging::parse_logging_spec,
     proto::command::{
-        PathRuleKind, QueryClustersHashes, ResponseStatus, ReturnListenSockets, RulePosition,
+        PathRuleKind, QueryClustersHashes, RequestHttpFrontend, ResponseStatus, ReturnListenSockets, RulePosition,
         Status, WorkerResponse, request::RequestType, response_content::ContentType,
     },
     state::ConfigState,
@@ -150,8 +150,10 @@ fn summary(s: &ConfigState) -> Value {
 fn liveness_probe(kind: LK, addr: SocketAddr, wait: Duration) -> Probe {
     match kind {
         LK::Http => net::http_probe(addr, "nohost.test", "/", wait),
+        // a real TLS handshake (SNI nohost.test: the default certificate) and one request
+        LK::Https => net::https_probe(addr, "nohost.test", "/", wait),
         _ => {
-            // HTTPS: plain bytes make rustls answer with an alert and close; TCP: relayed or closed
+            // TCP: relayed or closed
             let mut s = match net::can_connect(addr) {
                 Ok(s) => s,
                 Err(e) => return Probe::Refused(e),
@@ -693,6 +695,7 @@ impl<'p> Run<'p> {
         let cell = self.plan.cell;
         let mut served_http: Vec<SocketAddr> = Vec::new();
         let mut served_tcp: Vec<SocketAddr> = Vec::new();
+        let mut served_https: Vec<SocketAddr> = Vec::new();
         let mut todo: Vec<(LK, u16, SocketAddr, Option<bool>)> = Vec::new();
         for kind in [LK::Http, LK::Https, LK::Tcp] {
             for port in kind.ports() {
@@ -735,12 +738,18 @@ impl<'p> Run<'p> {
                             format!("{k} listener :{port} is active in the main process's view; the kernel completes the TCP handshake but the worker never serves the connection (no byte, no close; probed twice on fresh connections, 0.5 s then 1.5 s)"),
                             json!({"listener": format!(":{port}"), "kind": k, "commands_for_this_listener": hist, "focus": focus}));
                     }
+                    Probe::TlsFailed(e) => {
+                        self.out.v("worker/https_listener_tls_handshake_fails",
+                            format!("https listener :{port} is active and accepts the connection, but the TLS handshake (SNI nohost.test) fails: {e}"),
+                            json!({"listener": format!(":{port}"), "commands_for_this_listener": hist, "focus": focus}));
+                    }
                     _ => {
                         self.out.o("listener_probes/active_served", 1);
                         match kind {
                             LK::Http => served_http.push(addr),
                             LK::Tcp => served_tcp.push(addr),
-                            _ => {}
+                            LK::Https => served_https.push(addr),
+                            LK::Udp => {}
                         }
                     }
                 }
@@ -759,43 +768,134 @@ impl<'p> Run<'p> {
         }
         // HTTP routes: one probe per (listener, host, prefix) of the universe on served listeners;
         // covers present frontends and removed ones alike
-        for addr in served_http {
-            for host in HOSTS {
-                for (prefix, path) in [("/", "/zz"), ("/api", "/api/x")] {
-                    self.route_probe(addr, host, prefix, path);
+        for (https, addrs) in [(false, served_http), (true, served_https)] {
+            for addr in addrs {
+                for host in HOSTS {
+                    for (prefix, path) in [("/", "/zz"), ("/api", "/api/x")] {
+                        self.route_probe(https, addr, host, prefix, path);
+                    }
                 }
             }
         }
         for addr in served_tcp {
             self.tcp_route_probe(addr);
         }
+        for port in LK::Udp.ports() {
+            self.udp_route_probe(cell.a(port));
+        }
+    }
+
+    /// one datagram per UDP listener address: relayed to a backend of the cluster bound to it and
+    /// answered, or dropped when the view has no active listener / frontend / backend there
+    fn udp_route_probe(&mut self, addr: SocketAddr) {
+        let active = self.reference.udp_listeners.get(&addr).map(|l| l.active);
+        let clusters: Vec<String> = self.reference.udp_fronts.iter().filter(|(_, v)| v.iter().any(|f| f.address == addr)).map(|(c, _)| c.clone()).collect();
+        let ports: BTreeSet<u16> = clusters.iter().flat_map(|c| self.backend_ports(c)).collect();
+        let routable = active == Some(true) && !clusters.is_empty() && clusters.iter().all(|c| !self.backend_ports(c).is_empty());
+        // a cluster that was removed while its frontend stays, or several clusters on one listener:
+        // the statement does not say which wins
+        let lenient = clusters.len() > 1 || clusters.iter().any(|c| !self.reference.clusters.contains_key(c));
+        let mut got = net::udp_probe(addr, Duration::from_millis(400));
+        if got.is_none() && routable {
+            got = net::udp_probe(addr, Duration::from_millis(1200));
+        }
+        self.out.o("udp_probes", 1);
+        self.out.o(match active {
+            Some(true) => "udp_probes/active_listener",
+            Some(false) => "udp_probes/inactive_listener",
+            None => "udp_probes/absent_listener",
+        }, 1);
+        if lenient && active == Some(true) {
+            self.out.o("udp_probes/lenient", 1);
+        }
+        let ok = match &got {
+            Some(tag) => active == Some(true) && ports.iter().any(|p| tag == &format!("U{p}")),
+            None => !routable || lenient,
+        };
+        if ok {
+            self.out.o("udp_probes/as_expected", 1);
+            if got.is_some() {
+                self.out.o("udp_probes/relayed_to_backend_of_cluster", 1);
+            }
+            return;
+        }
+        let front_pos = self.last_forwarded(|rt| matches!(rt, RequestType::AddUdpFrontend(a) if SocketAddr::from(a.address) == addr));
+        let ever: BTreeSet<String> = self.forwarded.iter().filter_map(|(i, _)| match &self.plan.cmds[*i].rt {
+            RequestType::AddUdpFrontend(a) if SocketAddr::from(a.address) == addr => Some(a.cluster_id.clone()),
+            _ => None,
+        }).collect();
+        let sig = if got.is_some() && active != Some(true) {
+            format!("worker/udp_{}_listener_relays_datagrams", if active.is_none() { "removed_or_never_added" } else { "inactive" })
+        } else {
+            match (front_pos, self.last_listener_add(addr)) {
+                (_, Some((_, "failure"))) => "worker/udp_route_mismatch/listener_add_answered_failure".to_owned(),
+                (Some((_, "failure")), _) => "worker/udp_route_mismatch/frontend_add_answered_failure".to_owned(),
+                (Some((fp, _)), Some((lp, _))) if fp < lp => "worker/udp_route_mismatch/frontend_older_than_listener".to_owned(),
+                _ if ever.len() > 1 => "worker/udp_route_mismatch/listener_shared_by_several_clusters".to_owned(),
+                _ => format!("worker/udp_route_mismatch/expected={}/got={}", if routable { "reply" } else { "no_reply" }, if got.is_some() { "reply" } else { "no_reply" }),
+            }
+        };
+        self.out.v(&sig,
+            format!("UDP listener :{} (view: {}): expected {}, got {:?}", addr.port(),
+                match active { Some(true) => "active", Some(false) => "inactive", None => "absent" },
+                if routable { format!("a reply from a backend of {clusters:?} {ports:?}") } else { "no reply".to_owned() }, got),
+            json!({"listener": format!(":{}", addr.port()), "clusters_with_a_frontend_here": clusters, "backend_ports": ports, "got": got,
+                "focus": {"ports": [addr.port()], "clusters": clusters},
+                "commands_for_this_listener": self.listener_history(addr), "view": summary(&self.reference)}));
     }
 
     fn backend_ports(&self, cluster: &str) -> BTreeSet<u16> {
         self.reference.backends.get(cluster).map(|v| v.iter().map(|b| b.address.port()).collect()).unwrap_or_default()
     }
 
-    fn route_probe(&mut self, addr: SocketAddr, host: &str, prefix: &str, path: &str) {
+    fn route_probe(&mut self, https: bool, addr: SocketAddr, host: &str, prefix: &str, path: &str) {
+        let (okey, sigp) = if https { ("https_route_probes", "worker/https_route_mismatch") } else { ("route_probes", "worker/route_mismatch") };
+        let fronts = if https { &self.reference.https_fronts } else { &self.reference.http_fronts };
+        // the frontend named by an Add / Remove order of this protocol
+        let added = move |rt: &RequestType| -> Option<RequestHttpFrontend> {
+            match rt {
+                RequestType::AddHttpFrontend(f) if !https => Some(f.clone()),
+                RequestType::AddHttpsFrontend(f) if https => Some(f.clone()),
+                _ => None,
+            }
+        };
+        let removed = move |rt: &RequestType| -> Option<RequestHttpFrontend> {
+            match rt {
+                RequestType::RemoveHttpFrontend(f) if !https => Some(f.clone()),
+                RequestType::RemoveHttpsFrontend(f) if https => Some(f.clone()),
+                _ => None,
+            }
+        };
+        let same = move |f: &RequestHttpFrontend, p: &str| SocketAddr::from(f.address) == addr && f.hostname == host && f.path.value == p;
         // independent expectation: exact host, longest matching prefix, tree position, no method
-        let on_host: Vec<_> = self.reference.http_fronts.values().filter(|f| f.address == addr && f.hostname == host).cloned().collect();
+        let on_host: Vec<_> = fronts.values().filter(|f| f.address == addr && f.hostname == host).cloned().collect();
         let in_model = |f: &sozu_command_lib::response::HttpFrontend| {
             f.position == RulePosition::Tree && f.method.is_none() && PathRuleKind::try_from(f.path.kind) == Ok(PathRuleKind::Prefix)
         };
         if on_host.iter().any(|f| !in_model(f)) {
-            self.out.o("route_probes/exempt_frontend_outside_model", 1);
+            self.out.o(&format!("{okey}/exempt_frontend_outside_model"), 1);
             return;
         }
-        let was_ever_added = self.forwarded.iter().any(|(i, _)| match &self.plan.cmds[*i].rt {
-            RequestType::AddHttpFrontend(f) => SocketAddr::from(f.address) == addr && f.hostname == host && f.path.value == prefix,
-            _ => false,
-        });
+        let was_ever_added = self.forwarded.iter().any(|(i, _)| added(&self.plan.cmds[*i].rt).is_some_and(|f| same(&f, prefix)));
         let best = on_host.iter().filter(|f| path.starts_with(&f.path.value)).max_by_key(|f| f.path.value.len()).cloned();
         let present = on_host.iter().any(|f| f.path.value == prefix);
         if !present && !was_ever_added {
             return; // nothing to say about a frontend that never existed
         }
-        let got = net::http_probe(addr, host, path, Duration::from_millis(3000));
-        self.out.o("route_probes", 1);
+        let got = if https {
+            net::https_probe(addr, host, path, Duration::from_millis(3000))
+        } else {
+            net::http_probe(addr, host, path, Duration::from_millis(3000))
+        };
+        self.out.o(okey, 1);
+        // HTTPS: when no certificate of the view names the host, the default certificate is served
+        // and a 421 (authority not covered) is a permitted answer too (C17 judges certificate choice)
+        let covered = !https || self.reference.certificates.get(&addr).is_some_and(|m| {
+            m.values().any(|c| c.names.iter().any(|n| n == host || n.strip_prefix("*.").is_some_and(|sfx| host.ends_with(sfx) && host.len() > sfx.len() + 1)))
+        });
+        if https {
+            self.out.o(if covered { "https_route_probes/host_covered_by_a_certificate" } else { "https_route_probes/host_not_covered(421 accepted)" }, 1);
+        }
         // acceptable outcomes
         let (want, exempt): (String, bool) = match &best {
             None => ("404".to_owned(), false),
@@ -813,6 +913,7 @@ impl<'p> Run<'p> {
             },
         };
         let ok = match (&best, &got) {
+            (_, Probe::Http { status: 421, .. }) if !covered => true,
             (None, Probe::Http { status: 404, .. }) => true,
             (Some(f), Probe::Http { status, body, complete }) => match &f.cluster_id {
                 None => *status == 401,
@@ -830,27 +931,25 @@ impl<'p> Run<'p> {
             _ => false,
         };
         if exempt {
-            self.out.o("route_probes/cluster_removed_frontend_left(lenient)", 1);
+            self.out.o(&format!("{okey}/cluster_removed_frontend_left(lenient)"), 1);
         }
         match (&best, present) {
-            (None, _) => self.out.o("route_probes/expect_404_removed_frontend", 1),
-            (Some(f), _) if f.cluster_id.is_none() => self.out.o("route_probes/expect_401_deny", 1),
-            (Some(f), _) if self.backend_ports(f.cluster_id.as_deref().unwrap_or("")).is_empty() => self.out.o("route_probes/expect_503_no_backend", 1),
-            _ => self.out.o("route_probes/expect_backend", 1),
+            (None, _) => self.out.o(&format!("{okey}/expect_404_removed_frontend"), 1),
+            (Some(f), _) if f.cluster_id.is_none() => self.out.o(&format!("{okey}/expect_401_deny"), 1),
+            (Some(f), _) if self.backend_ports(f.cluster_id.as_deref().unwrap_or("")).is_empty() => self.out.o(&format!("{okey}/expect_503_no_backend"), 1),
+            _ => self.out.o(&format!("{okey}/expect_backend"), 1),
         }
         if ok {
-            self.out.o("route_probes/as_expected", 1);
+            self.out.o(&format!("{okey}/as_expected"), 1);
             if matches!(got, Probe::Http { status: 200, .. }) {
-                self.out.o("route_probes/landed_on_backend_of_cluster", 1);
+                self.out.o(&format!("{okey}/landed_on_backend_of_cluster"), 1);
             }
             return;
         }
         // cause hint: was the frontend's own Add answered FAILURE by the worker?
         let add_status = best.as_ref().and_then(|f| {
-            self.forwarded.iter().rev().find_map(|(i, id)| match &self.plan.cmds[*i].rt {
-                RequestType::AddHttpFrontend(a) if SocketAddr::from(a.address) == addr && a.hostname == host && a.path.value == f.path.value => {
-                    self.sent.get(id).and_then(|s| s.status).map(status_name)
-                }
+            self.forwarded.iter().rev().find_map(|(i, id)| match added(&self.plan.cmds[*i].rt) {
+                Some(a) if same(&a, &f.path.value) => self.sent.get(id).and_then(|s| s.status).map(status_name),
                 _ => None,
             })
         });
@@ -864,22 +963,31 @@ impl<'p> Run<'p> {
             Probe::Http { status: 200, body, .. } => format!("other_backend({})", if body.starts_with('B') { "tagged" } else { "untagged" }),
             p => p.class(),
         };
-        let mut sig = format!("worker/route_mismatch/expected={want_class}/got={got_class}");
+        let mut sig = format!("{sigp}/expected={want_class}/got={got_class}");
         let missing_backend = best.as_ref().and_then(|f| f.cluster_id.as_ref()).is_some_and(|c| self.clusters_missing_backends.contains(c));
         let front_pos = best.as_ref().and_then(|f| {
-            self.last_forwarded(|rt| matches!(rt, RequestType::AddHttpFrontend(a) if SocketAddr::from(a.address) == addr && a.hostname == host && a.path.value == f.path.value))
+            self.last_forwarded(|rt| added(rt).is_some_and(|a| same(&a, &f.path.value)))
+        });
+        // a frontend of this host that the view no longer holds, whose Remove the worker refused:
+        // the router may still serve it
+        let remove_refused = plan::PREFIXES.iter().any(|p| {
+            path.starts_with(p)
+                && !on_host.iter().any(|f| f.path.value == *p)
+                && self.last_forwarded(|rt| removed(rt).is_some_and(|a| same(&a, p))).is_some_and(|(_, st)| st == "failure")
         });
         let listener_pos = self.last_listener_add(addr);
         // name the class by its cause when the history shows one (the expected/got pair is in the witness)
         if add_status == Some("failure") {
-            sig = "worker/route_mismatch/frontend_add_answered_failure".to_owned();
+            sig = format!("{sigp}/frontend_add_answered_failure");
         } else if matches!((front_pos, listener_pos), (Some((fp, _)), Some((lp, _))) if fp < lp) {
-            sig = "worker/route_mismatch/frontend_older_than_listener".to_owned();
+            sig = format!("{sigp}/frontend_older_than_listener");
         } else if missing_backend && want_class == "backend" {
-            sig = "worker/route_mismatch/backend_missing_from_live_table".to_owned();
+            sig = format!("{sigp}/backend_missing_from_live_table");
+        } else if remove_refused {
+            sig = format!("{sigp}/frontend_remove_answered_failure");
         }
         self.out.v(&sig,
-            format!("GET {path} Host: {host} on :{}: expected {want}, got {}", addr.port(), got.short()),
+            format!("{} GET {path} Host: {host} on :{}: expected {want}, got {}", if https { "HTTPS" } else { "HTTP" }, addr.port(), got.short()),
             json!({"listener": format!(":{}", addr.port()), "host": host, "path": path, "expected": want, "got": got.short(),
                 "matching_frontend_in_view": best.as_ref().map(|f| format!("{}{} -> {:?}", f.hostname, f.path.value, f.cluster_id)),
                 "worker_answer_to_that_frontends_add": add_status,
@@ -1074,15 +1182,21 @@ impl<'p> Run<'p> {
             "events_after_stop": events.iter().map(|(k, d)| format!("{k} {d}")).collect::<Vec<_>>(),
             "inflight_request": inflight_result.as_ref().map(|p| p.short())});
 
-        if !exited && self.w.is_running() {
+        // bounded-liveness judgement: before calling a stop stuck, give it 8 more seconds (a starved
+        // box makes a healthy worker late; a stuck one stays stuck)
+        let exited_late = !exited && self.w.is_running() && self.w.join(Duration::from_secs(8));
+        if exited_late {
+            while let Ok(Some(_)) = self.w.recv(Duration::from_millis(50)) {}
+            self.out.inconclusive.push(format!("{stop_verb} completed, but only after more than {} ms", w1 + w2));
+        } else if !exited && self.w.is_running() {
             if soft && snap.nb_connections == 0 && snap.accept_queue_len == 0 {
                 // logical condition, not a clock: nothing is left to drain and 40 shutdown ticks passed
                 let which = if snap.slab_len > snap.base_sessions_count { "slab_above_base" } else { "other" };
                 self.out.v(&format!("worker/soft_stop_never_completes/{which}"),
-                    format!("SoftStop: no session is left (nb_connections=0, accept queue empty) but {} ms ({} shutdown ticks) later the worker has neither acknowledged nor exited: slab_len={} base_sessions_count={}", w1 + w2, (w1 + w2) / 100, snap.slab_len, snap.base_sessions_count),
+                    format!("SoftStop: no session is left (nb_connections=0, accept queue empty) but {} ms ({} shutdown ticks) later, and again 8 s after that, the worker has neither acknowledged nor exited: slab_len={} base_sessions_count={}", w1 + w2, (w1 + w2) / 100, snap.slab_len, snap.base_sessions_count),
                     detail.clone());
             } else if !soft {
-                self.out.v("worker/hard_stop_does_not_exit", "HardStop: worker thread still running after 4 s".to_owned(), detail.clone());
+                self.out.v("worker/hard_stop_does_not_exit", "HardStop: worker thread still running after 12 s".to_owned(), detail.clone());
             } else {
                 self.out.inconclusive.push(format!("soft stop pending with {} session(s) left", snap.nb_connections));
             }
@@ -1203,9 +1317,7 @@ pub fn run_plan(plan: &Plan) -> Outcome {
             out.broken.push(format!("worker thread panicked outside sozu: {} at {}", p.message, p.location));
         }
     }
-    for s in backends.servers.iter_mut() {
-        s.stop();
-    }
+    backends.stop();
     out.o("backend_requests_served", backends.requests.load(Ordering::SeqCst));
     out
 }
